@@ -156,9 +156,9 @@ func tailStr(s string, n int) string {
 	return s
 }
 
-// GuardFor is Guard with the tier's hang limit (quick: 8 min, thorough: 2 h).
+// GuardFor is Guard with the tier's hang limit (quick: 20 min, thorough: 2 h).
 func GuardFor(id string) {
-	hang := 8 * time.Minute
+	hang := 20 * time.Minute
 	for _, a := range os.Args[1:] {
 		if a == "thorough" {
 			hang = 2 * time.Hour
